@@ -39,12 +39,17 @@ func mergeAnchors() []anchor {
 			Syms: map[string]sym{"s.Ready(m.SubscriptionID, msg.Idx)": b("ready")}},
 
 		// ---- OK state ------------------------------------------------------
-		{Name: "g_ok_has_slot", File: f, Recv: okS, Func: "TrySetEventID", Kind: "ifcond", Select: "len(stat.s[eventID])",
+		{Name: "g_ok_no_slot", File: f, Recv: okS, Func: "TrySetEventID", Kind: "ifcond", Select: "len(stat.s[eventID])",
 			Header: lenZ, RetTy: "bool", Out: out,
 			Syms: map[string]sym{"len(stat.s[eventID])": z("len")}},
-		{Name: "g_ok_setmsg_absent", File: f, Recv: okS, Func: "SetMsg", Kind: "ifcond", Select: "len(msgs)",
-			Header: lenZ, RetTy: "bool", Out: out,
-			Syms: map[string]sym{"len(msgs)": z("len")}},
+		// a reply is dropped when nobody waits for the id or the child has already answered every pending submission
+		{Name: "g_ok_setmsg_drop", File: f, Recv: okS, Func: "SetMsg", Kind: "ifcond", Select: "len(msgs)",
+			Header: "(len qlen pending : Z)", RetTy: "bool", Out: out,
+			Syms: map[string]sym{"len(msgs)": z("len"), "len(msgs[chIdx])": z("qlen"),
+				"stat.pending[msg.EventID]": z("pending")}},
+		{Name: "g_ok_clear_done", File: f, Recv: okS, Func: "ClearEventID", Kind: "ifcond", Select: "stat.pending[eventID]",
+			Header: "(pending : Z)", RetTy: "bool", Out: out,
+			Syms: map[string]sym{"stat.pending[eventID]": z("pending")}},
 		{Name: "g_ok_ready_absent", File: f, Recv: okS, Func: "Ready", Kind: "ifcond", Select: "len(msgs)",
 			Header: lenZ, RetTy: "bool", Out: out,
 			Syms: map[string]sym{"len(msgs)": z("len")}},
@@ -87,7 +92,7 @@ func mergeAnchors() []anchor {
 		{Name: "g_ev_seen_reject", File: f, Recv: rqS, Func: "IsSendableEventMsg", Kind: "ifcond", Select: "stat.seen",
 			Header: "(seen_nil seen_has : bool)", RetTy: "bool", Out: out,
 			Syms: map[string]sym{
-				"stat.seen[msg.SubscriptionID] == nil":         b("seen_nil"),
+				"stat.seen[msg.SubscriptionID] == nil":        b("seen_nil"),
 				"stat.seen[msg.SubscriptionID][msg.Event.ID]": b("seen_has")}},
 		{Name: "g_ev_done", File: f, Recv: rqS, Func: "IsSendableEventMsg", Kind: "ifcond", Select: "Done()",
 			Header: "(done : bool)", RetTy: "bool", Out: out,
@@ -97,9 +102,16 @@ func mergeAnchors() []anchor {
 			Syms: map[string]sym{"stat.matcher[msg.SubscriptionID].LimitMatch(msg.Event)": b("matched")}},
 
 		// ---- COUNT state ---------------------------------------------------
-		{Name: "g_cnt_set_absent", File: f, Recv: cnS, Func: "SetCountMsg", Kind: "ifcond", Select: "len(counts)",
+		{Name: "g_cnt_no_slot", File: f, Recv: cnS, Func: "SetSubID", Kind: "ifcond", Select: "len(stat.counts[subID])",
 			Header: lenZ, RetTy: "bool", Out: out,
-			Syms: map[string]sym{"len(counts)": z("len")}},
+			Syms: map[string]sym{"len(stat.counts[subID])": z("len")}},
+		{Name: "g_cnt_set_drop", File: f, Recv: cnS, Func: "SetCountMsg", Kind: "ifcond", Select: "len(counts)",
+			Header: "(len qlen pending : Z)", RetTy: "bool", Out: out,
+			Syms: map[string]sym{"len(counts)": z("len"), "len(counts[chIdx])": z("qlen"),
+				"stat.pending[msg.SubscriptionID]": z("pending")}},
+		{Name: "g_cnt_clear_done", File: f, Recv: cnS, Func: "ClearSubID", Kind: "ifcond", Select: "stat.pending[subID]",
+			Header: "(pending : Z)", RetTy: "bool", Out: out,
+			Syms: map[string]sym{"stat.pending[subID]": z("pending")}},
 		{Name: "g_cnt_ready_absent", File: f, Recv: cnS, Func: "Ready", Kind: "ifcond", Select: "len(counts)",
 			Header: lenZ, RetTy: "bool", Out: out,
 			Syms: map[string]sym{"len(counts)": z("len")}},
